@@ -1,0 +1,130 @@
+//! Verification hooks, compiled only with the cargo feature `verif`.
+//!
+//! Nothing in here changes the behaviour of the library: the module re-exports
+//! internal items so that an external harness can drive them, and provides a
+//! process wide logical clock and fault points that are inert unless a harness
+//! sets them.
+use std::sync::atomic::{AtomicI64, AtomicU64, Ordering};
+use std::sync::Mutex;
+
+pub mod database {
+    pub use crate::database::*;
+}
+pub mod security {
+    pub use crate::security::*;
+}
+pub mod synchronisation {
+    pub use crate::synchronisation::*;
+}
+pub mod network {
+    pub use crate::network::*;
+}
+pub mod event_service {
+    pub use crate::event_service::*;
+}
+pub mod signature_verification_service {
+    pub use crate::signature_verification_service::*;
+}
+pub mod peer_connection_service {
+    pub use crate::peer_connection_service::*;
+}
+pub mod date_utils {
+    pub use crate::date_utils::*;
+}
+pub mod configuration {
+    pub use crate::configuration::*;
+}
+pub mod discret {
+    pub use crate::discret::*;
+}
+pub use bincode;
+pub use rusqlite;
+
+static CLOCK: AtomicI64 = AtomicI64::new(0);
+
+/// logical clock: 0 means "use the system clock"
+pub fn set_clock(millis: i64) {
+    CLOCK.store(millis, Ordering::SeqCst);
+}
+
+pub fn clock() -> Option<i64> {
+    let v = CLOCK.load(Ordering::SeqCst);
+    if v == 0 {
+        None
+    } else {
+        Some(v)
+    }
+}
+
+/// what a fault point does when it fires
+#[derive(Clone, Debug, PartialEq)]
+pub enum FaultKind {
+    Abort,
+    Error,
+}
+
+struct FaultPlan {
+    point: String,
+    hit: u64,
+    kind: FaultKind,
+}
+
+static FAULT_PLAN: Mutex<Option<FaultPlan>> = Mutex::new(None);
+static FAULT_HITS: AtomicU64 = AtomicU64::new(0);
+static TRACE: Mutex<Option<Vec<String>>> = Mutex::new(None);
+
+/// arm one fault: the `hit`-th time (1 based) the point `point` is reached
+pub fn set_fault(point: &str, hit: u64, kind: FaultKind) {
+    FAULT_HITS.store(0, Ordering::SeqCst);
+    *FAULT_PLAN.lock().unwrap() = Some(FaultPlan {
+        point: point.to_string(),
+        hit,
+        kind,
+    });
+}
+
+pub fn clear_fault() {
+    *FAULT_PLAN.lock().unwrap() = None;
+}
+
+/// called by the instrumented code; returns an error to inject, or aborts the process
+pub fn fault(point: &str) -> std::result::Result<(), rusqlite::Error> {
+    emit(point);
+    let mut plan = FAULT_PLAN.lock().unwrap();
+    let fire = match plan.as_ref() {
+        Some(p) if p.point == point => {
+            let n = FAULT_HITS.fetch_add(1, Ordering::SeqCst) + 1;
+            n == p.hit
+        }
+        _ => false,
+    };
+    if fire {
+        let kind = plan.as_ref().unwrap().kind.clone();
+        *plan = None;
+        match kind {
+            FaultKind::Abort => std::process::abort(),
+            FaultKind::Error => {
+                return Err(rusqlite::Error::InvalidParameterName(format!(
+                    "verif injected fault at {}",
+                    point
+                )))
+            }
+        }
+    }
+    Ok(())
+}
+
+/// start recording the names of the trace points that are reached
+pub fn trace_start() {
+    *TRACE.lock().unwrap() = Some(Vec::new());
+}
+
+pub fn trace_take() -> Vec<String> {
+    TRACE.lock().unwrap().take().unwrap_or_default()
+}
+
+pub fn emit(event: &str) {
+    if let Some(t) = TRACE.lock().unwrap().as_mut() {
+        t.push(event.to_string());
+    }
+}
